@@ -141,6 +141,132 @@ def bounded_check(max_len=4, verbose=False):
     return n, fails
 
 
+# ---------------------------------------------------------------------------- design-space files (text and HDF5)
+# A design space is built from an ordered selection of 1..3 distinct variables of DS_VARS (mixed types, infinite bounds,
+# missing current values, multi-character names, sizes 1..3), written with to_csv / to_hdf / to_file on REAL files in a
+# temporary directory and read back with from_csv / from_hdf / from_file: same names in the same order, sizes, types,
+# bounds, current values (None stays None), and ``reloaded == original``.
+DS_VARS = [
+    ("x", 1, "float", 0.0, 1.0, 0.5),
+    ("alpha", 2, "float", -1.0, 2.0, [0.25, 1.5]),
+    ("n_items", 1, "integer", 0, 9, 3),
+    ("beta", 2, "float", -np.inf, np.inf, None),
+    ("gamma", 1, "float", 0.0, np.inf, None),
+    ("kk", 3, "integer", [-2, 0, 1], [5, 7, 9], [1, 2, 3]),
+]
+DS_FORMATS = ["csv", "file.csv", "hdf", "hdf:node/sub", "file.h5"]
+
+
+def ds_scenarios(max_vars=3):
+    for n in range(1, max_vars + 1):
+        yield from itertools.permutations(range(len(DS_VARS)), n)
+
+
+def _build_ds(ids):
+    from gemseo.algos.design_space import DesignSpace
+
+    ds = DesignSpace()
+    for i in ids:
+        name, size, typ, lb, ub, val = DS_VARS[i]
+        ds.add_variable(name, size=size, type_=typ, lower_bound=np.asarray(lb) if isinstance(lb, list) else lb,
+                        upper_bound=np.asarray(ub) if isinstance(ub, list) else ub, value=None if val is None else np.asarray(val))
+    return ds
+
+
+def compare_ds(ds, loaded):
+    if loaded.variable_names != ds.variable_names:
+        return {"what": "variable names / order", "expected": ds.variable_names, "got": loaded.variable_names}
+    for name in ds.variable_names:
+        if loaded.get_size(name) != ds.get_size(name):
+            return {"what": f"size of {name!r}", "expected": ds.get_size(name), "got": loaded.get_size(name)}
+        if str(loaded.get_type(name)) != str(ds.get_type(name)):
+            return {"what": f"type of {name!r}", "expected": str(ds.get_type(name)), "got": str(loaded.get_type(name))}
+        for what, get in (("lower bound", "get_lower_bound"), ("upper bound", "get_upper_bound")):
+            a, b = getattr(ds, get)(name), getattr(loaded, get)(name)
+            if not np.array_equal(np.asarray(a, dtype=float), np.asarray(b, dtype=float)):
+                return {"what": f"{what} of {name!r}", "expected": repr(a), "got": repr(b)}
+        a, b = ds._current_value.get(name), loaded._current_value.get(name)
+        if (a is None) != (b is None) or (a is not None and not np.array_equal(a, b)):
+            return {"what": f"current value of {name!r}", "expected": repr(a), "got": repr(b)}
+    if not (loaded == ds):
+        return {"what": "reloaded == original", "expected": True, "got": False}
+    return None
+
+
+def run_ds(fmt, ids, tmp=None):
+    from gemseo.algos.design_space import DesignSpace
+
+    own = tmp is None
+    tmp = Path(tempfile.mkdtemp(prefix="rt_c11.")) if own else Path(tmp)
+    try:
+        ds = _build_ds(ids)
+        kind, _, node = fmt.partition(":")
+        path = tmp / {"csv": "ds.csv", "file.csv": "ds_file.csv", "hdf": "ds.h5", "file.h5": "ds_file.h5"}[kind]
+        if path.exists():
+            path.unlink()
+        if kind == "csv":
+            ds.to_csv(path)
+            loaded = DesignSpace.from_csv(path)
+        elif kind == "hdf":
+            ds.to_hdf(path, hdf_node_path=node)
+            loaded = DesignSpace.from_hdf(path, hdf_node_path=node)
+        else:
+            ds.to_file(path)
+            loaded = DesignSpace.from_file(path)
+        return compare_ds(ds, loaded)
+    finally:
+        if own:
+            shutil.rmtree(tmp, ignore_errors=True)
+
+
+def bounded_check_ds(max_vars=3, verbose=False):
+    tmp = Path(tempfile.mkdtemp(prefix="rt_c11."))
+    n, fails = 0, []
+    try:
+        for fmt in DS_FORMATS:
+            for ids in ds_scenarios(max_vars):
+                n += 1
+                try:
+                    r = run_ds(fmt, ids, tmp)
+                except Exception as e:  # noqa: BLE001
+                    r = {"exception": repr(e)}
+                if r is not None:
+                    fails.append({"format": fmt, "variables": [DS_VARS[i][0] for i in ids], "variable_ids": list(ids), "failure": r})
+                    if verbose:
+                        print(fails[-1])
+    finally:
+        shutil.rmtree(tmp, ignore_errors=True)
+    return n, fails
+
+
+def _is_ds_function(func: str) -> bool:
+    return "design_space" in func
+
+
+def replay_ds(ob):
+    f = ob.func
+    if "csv" in f or "pretty_table" in f:
+        fmts = ["csv", "file.csv"]
+    elif "hdf" in f:
+        fmts = ["hdf", "hdf:node/sub", "file.h5"]
+    else:
+        fmts = DS_FORMATS
+    tmp = Path(tempfile.mkdtemp(prefix="rt_c11."))
+    try:
+        for fmt in fmts:
+            for ids in ds_scenarios(3):
+                try:
+                    r = run_ds(fmt, ids, tmp)
+                except Exception as e:  # noqa: BLE001
+                    r = {"exception": repr(e)}
+                if r is not None:
+                    return {"scenario": "design space written to a real file and read back", "format": fmt, "variables": [list(map(repr, DS_VARS[i])) for i in ids],
+                            "variable_ids": list(ids), "failure": r}
+    finally:
+        shutil.rmtree(tmp, ignore_errors=True)
+    return None
+
+
 def _relevant(func: str, seq):
     n_store = len(POINTS) * len(OUTS)
     has_append = any(OPS[i] == ("export", 1, 0) for i in seq)
@@ -150,6 +276,8 @@ def _relevant(func: str, seq):
 
 
 def replay(ob, seed=0):
+    if _is_ds_function(ob.func):
+        return replay_ds(ob)
     tmp = Path(tempfile.mkdtemp(prefix="rt_c11."))
     try:
         for node in NODES:
@@ -169,7 +297,7 @@ def replay(ob, seed=0):
 
 def rerun(w):
     try:
-        r = run(w["node"], tuple(w["sequence_ids"]))
+        r = run_ds(w["format"], tuple(w["variable_ids"])) if "variable_ids" in w else run(w["node"], tuple(w["sequence_ids"]))
     except Exception as e:  # noqa: BLE001
         r = {"exception": repr(e)}
     return {"fails": r is not None, "failure": r}
@@ -182,4 +310,7 @@ if __name__ == "__main__":
     t0 = time.time()
     n, fails = bounded_check(int(sys.argv[1]) if len(sys.argv) > 1 else 4, verbose=True)
     print(f"{n} scenarios, {len(fails)} failures, {time.time() - t0:.0f}s")
-    sys.exit(1 if fails else 0)
+    t0 = time.time()
+    n2, fails2 = bounded_check_ds(3, verbose=True)
+    print(f"design-space files: {n2} scenarios, {len(fails2)} failures, {time.time() - t0:.0f}s")
+    sys.exit(1 if fails or fails2 else 0)
